@@ -56,6 +56,12 @@ SanSpellings(p, ms, m) ==
 
 Lan(m) == SqName(m.from) \o SqName(m.to) \o (IF m.promo = "." THEN "" ELSE Lower[m.promo])
 
+\* the short "Peg" form the CLI prints for a move (no disambiguation, no check marks)
+Peg(m) == IF m.castle = "K" THEN "O-O" ELSE IF m.castle = "Q" THEN "O-O-O"
+          ELSE (IF m.piece = "P" THEN "" ELSE m.piece)
+               \o (IF m.capture # "." THEN (IF m.piece = "P" THEN FileCh[FileOf(m.from) + 1] ELSE "") \o "x" ELSE "")
+               \o SqName(m.to) \o (IF m.promo # "." THEN "=" \o m.promo ELSE "")
+
 \* pseudo-legal but illegal moves, spelled with the full origin square: must match nothing
 Negatives(p, ms) ==
   {(IF m.piece = "P" THEN "" ELSE m.piece) \o SqName(m.from) \o (IF m.capture # "." THEN "x" ELSE "") \o SqName(m.to)
